@@ -125,6 +125,9 @@ struct Job
 	uint64_t idx;
 };
 
+static uint64_t g_genIdx = 0;
+uint64_t genRunIndex() { return g_genIdx; }
+
 static uint64_t seedOf(const Scenario* sc, uint64_t idx) { return mix64(mix64(opt.seed, strHash(sc->name)), idx); }
 
 static void derive(const Scenario* sc, uint64_t idx, int tier, Plan& plan, SchedCfg& cfg)
@@ -133,6 +136,7 @@ static void derive(const Scenario* sc, uint64_t idx, int tier, Plan& plan, Sched
 	Prng prng(mix64(s, 1));
 	plan = Plan();
 	plan.scenario = sc->name;
+	g_genIdx = idx;
 	sc->gen(prng, plan, tier);
 	Prng st(mix64(s, 2));
 	cfg = SchedCfg();
